@@ -910,6 +910,9 @@ vbi_xds_demux_feed		(vbi_xds_demux *	xd,
 			log ("XDS ignore packet 0x%x/0x%02x, "
 			     "unknown class or subclass\n",
 			     xds_class, xds_subclass);
+			/* Ignore the new packet only, the interrupted
+			   one may be continued later. */
+			sp = NULL;
 			goto discard;
 		}
 
